@@ -1,7 +1,10 @@
 package main
 
 import (
+	"go/token"
+	"go/types"
 	"sort"
+	"strings"
 
 	"golang.org/x/tools/go/ssa"
 )
@@ -43,7 +46,26 @@ func runVF22(p *Prog, r *RuleRun) {
 				if isClose(ci) {
 					return CallInfo{Event: "PB.Close", Primitive: true, Infallible: true}
 				}
+				// bytes taken from a buffer before its Close must not be used after it
+				if cx.F != nil {
+					for _, a := range ci.Common().Args {
+						if tag := cx.Eval(a, cx.F).Tag; strings.HasPrefix(tag, "~pb:") && cx.F.TS[strings.TrimPrefix(tag, "~")] == "closed" {
+							r.Fail(cx.Key(ci, "bytes-after-close"), posOf(p, ci), "bytes of a pooled buffer (a slice taken from it earlier) are used after the buffer was closed: another reader may already have been handed the same backing array and be overwriting it (data race; an entry returned with another entry's bytes); path: "+trace(cx.F))
+						}
+					}
+				}
 				return CallInfo{Primitive: true}
+			},
+			Value: func(cx *Ctx, v ssa.Value, f *Fact) (AV, bool) {
+				// a load of a field of a pooled buffer carries the buffer's identity (inherited by slices of it)
+				if u, ok := v.(*ssa.UnOp); ok && u.Op == token.MUL {
+					if fa, ok := u.X.(*ssa.FieldAddr); ok && fa.X.Parent() != nil && strings.HasSuffix(fa.X.Type().String(), "types.PooledBuffer") {
+						if _, isSlice := u.Type().Underlying().(*types.Slice); isSlice {
+							return AV{Tag: "~" + key(fa.X)}, true
+						}
+					}
+				}
+				return AV{}, false
 			},
 			OnEvent: func(cx *Ctx, ev, phase string, ins ssa.Instruction, f *Fact) {
 				if ev != "PB.Close" || phase != "call" {
